@@ -20,6 +20,9 @@ use tokio::sync::mpsc;
 
 type EvLog = Arc<Mutex<Vec<(u64, u64, String)>>>;
 
+/// dialogs of the sessions the application holds (script action `between`: another request created in the dialog at that instant)
+static SESSION_DIALOGS: Mutex<Vec<Arc<Dialog>>> = Mutex::new(Vec::new());
+
 /// abort handles of tasks spawned from inside other tasks (they own Session / Early objects)
 static SUBTASKS: Mutex<Vec<tokio::task::AbortHandle>> = Mutex::new(Vec::new());
 fn track<T: Send + 'static>(h: tokio::task::JoinHandle<T>) {
@@ -85,6 +88,9 @@ fn contact(ep: &Endpoint, s: &str) -> Contact {
 /// drive a session: log every event with its virtual time; answer re-INVITEs and BYEs by default
 async fn drive_session(mut session: Session, log: EvLog, start: tokio::time::Instant, tag: String, refresh_mode: String) {
     let mut refreshes = 0;
+    if refresh_mode.contains("between") {
+        SESSION_DIALOGS.lock().push(session.dialog.clone());
+    }
     if refresh_mode.contains("probe") {
         // C11: a request created inside the freshly established dialog (request URI, Route lines as they would go out)
         use sip_types::print::AppendCtx;
@@ -206,6 +212,7 @@ pub async fn run_case(case: Vec<String>) -> String {
     if case[2] == "reg" {
         return crate::c17reg::run_case(case).await;
     }
+    SESSION_DIALOGS.lock().clear();
     let role = case[2].clone();
     let setup = case[3].clone();
     let script: Vec<(u64, Vec<String>)> = case[4]
@@ -234,11 +241,12 @@ pub async fn run_case(case: Vec<String>) -> String {
     let acceptor: Arc<tokio::sync::Mutex<Option<Acceptor>>> = Default::default();
     let mut local_tag = String::new();
     let invite_branch = "z9hG4bKinvite1";
-    let invite_cseq = 314;
+    let invite_cseq: u32 = setup.split(';').find_map(|kv| kv.strip_prefix("cseq=")).and_then(|v| v.parse().ok()).unwrap_or(314);
     let mut req_counter = 0;
     let mut cseq_counter = 0; // consecutive CSeq numbers for the peer's in-dialog requests (ACK re-uses one)
     let mut tasks: Vec<tokio::task::JoinHandle<()>> = vec![];
     let refresh_mode = format!("{}{}", if setup.contains("refresh=do") { "do" } else { "log" }, if setup.contains("probe") { "+probe" } else { "" })
+        + if setup.contains("between") { "+between" } else { "" }
         + &setup.split(';').find_map(|kv| kv.strip_prefix("slowearly=")).map(|v| format!("+slow={}", v)).unwrap_or_default();
 
     // identifiers of the dialog as the peer sees it; on the UAC side they are read from our INVITE
@@ -368,7 +376,7 @@ pub async fn run_case(case: Vec<String>) -> String {
                 req_counter += 1;
                 let other = format!("z9hG4bKother{}", req_counter);
                 let branch = if variant == "x" { other.as_str() } else { invite_branch };
-                let cseq = if variant == "c" { invite_cseq + 1 } else { invite_cseq };
+                let cseq = if variant == "c" { invite_cseq.saturating_add(1) } else { invite_cseq };
                 let text = indialog("CANCEL", cseq, branch, "", "");
                 inject(&endpoint, &text, source, &tp);
             }
@@ -376,14 +384,14 @@ pub async fn run_case(case: Vec<String>) -> String {
                 req_counter += 1;
                 cseq_counter += 1;
                 let m = a[0].to_uppercase();
-                let text = indialog(&m, invite_cseq + cseq_counter, &format!("z9hG4bK{}{}", a[0], req_counter), &local_tag, "");
+                let text = indialog(&m, invite_cseq.saturating_add(cseq_counter), &format!("z9hG4bK{}{}", a[0], req_counter), &local_tag, "");
                 inject(&endpoint, &text, source, &tp);
             }
             "reinv" => {
                 req_counter += 1;
                 cseq_counter += 1;
                 let extra = a.get(1).map(|h| String::from_utf8(unhex(h)).unwrap()).unwrap_or_default();
-                let text = indialog("INVITE", invite_cseq + cseq_counter, &format!("z9hG4bKreinv{}", req_counter), &local_tag, &format!("Contact: <sip:peer@10.9.9.9>\r\n{}", extra));
+                let text = indialog("INVITE", invite_cseq.saturating_add(cseq_counter), &format!("z9hG4bKreinv{}", req_counter), &local_tag, &format!("Contact: <sip:peer@10.9.9.9>\r\n{}", extra));
                 inject(&endpoint, &text, source, &tp);
             }
             "ack" => {
@@ -410,14 +418,14 @@ pub async fn run_case(case: Vec<String>) -> String {
                 };
                 let rack = match variant {
                     "wrong" => format!("RAck: {} {} INVITE\r\n", rseq + 1, invite_cseq),
-                    "wrongcseq" => format!("RAck: {} {} INVITE\r\n", rseq, invite_cseq + 7),
+                    "wrongcseq" => format!("RAck: {} {} INVITE\r\n", rseq, invite_cseq.saturating_add(7)),
                     "bad" => "RAck: garbage\r\n".to_string(),
                     "none" => String::new(),
                     _ => format!("RAck: {} {} INVITE\r\n", rseq, invite_cseq),
                 };
                 req_counter += 1;
                 cseq_counter += 1;
-                let text = indialog("PRACK", invite_cseq + cseq_counter, &format!("z9hG4bKprack{}", req_counter), &local_tag, &rack);
+                let text = indialog("PRACK", invite_cseq.saturating_add(cseq_counter), &format!("z9hG4bKprack{}", req_counter), &local_tag, &rack);
                 inject(&endpoint, &text, source, &tp);
             }
             "raw" => {
@@ -525,6 +533,12 @@ pub async fn run_case(case: Vec<String>) -> String {
                 }
             }
             "wait" => {}
+            "between" => {
+                // the application creates another request in every dialog it holds (say an INFO it is about to send)
+                for d in SESSION_DIALOGS.lock().iter() {
+                    let _ = d.create_request(Method::INFO);
+                }
+            }
             "abortall" => {
                 // the application drops everything it holds at this instant (C16: early drops)
                 for t in tasks.drain(..) {
@@ -565,6 +579,7 @@ pub async fn run_case(case: Vec<String>) -> String {
         quiesced = format!(" quiesced=tsx{}/tp{}/dlg{}/backlog{}/cancel{}", c.0, c.1, d.0, d.1, i);
     } else {
         SUBTASKS.lock().clear();
+        SESSION_DIALOGS.lock().clear();
     }
     let mut all: Vec<(u64, u64, String)> = log.lock().clone();
     for w in wire.lock().iter() {
